@@ -46,14 +46,37 @@ JudgeParsed(r, res) ==
 
 Init == l = 1 /\ nUnspec = 0
 
+\* Two correct shortest-digit algorithms may print the same double with a different 16th / 17th digit; a datum read
+\* back from such a text equals the original up to two units in the last place of the longer digit string.
+Zeros(k) == [i \in 1..k |-> 0]
+FloatAgrees(x, y) ==
+  IF x = y THEN TRUE
+  ELSE IF x.t # "flt" \/ y.t # "flt" \/ x.neg # y.neg \/ Len(x.d) < 16 \/ Len(y.d) < 16 THEN FALSE
+  ELSE LET ex == IF x.e < y.e THEN x.e ELSE y.e
+           X == Norm(x.d \o Zeros(x.e - ex))
+           Y == Norm(y.d \o Zeros(y.e - ex))
+       IN x.e - ex <= 2 /\ y.e - ex <= 2 /\ Leq(X, AddSmall(Y, 2)) /\ Leq(Y, AddSmall(X, 2))
+
+RECURSIVE SameDatum(_, _)
+SameDatum(a, b) ==
+  IF a = b THEN TRUE
+  ELSE IF a.k # b.k THEN FALSE
+  ELSE CASE a.k = "num" -> FloatAgrees(a.n, b.n)
+         [] a.k = "cons" -> SameDatum(a.car, b.car) /\ SameDatum(a.cdr, b.cdr)
+         [] a.k = "vec" -> Len(a.e) = Len(b.e) /\ \A i \in DOMAIN a.e : SameDatum(a.e[i], b.e[i])
+         [] OTHER -> FALSE
+
 Step ==
   LET e == Rec[l] IN
   CASE e.ev = "printed" ->
          LET r == ReadOne(e.text, e.ro) IN
          IF r.t = "ok" THEN
-              /\ (IF r.v = e.exp THEN TRUE ELSE Bad("independent reader reads the printed text as a different datum"))
+              /\ (IF SameDatum(r.v, e.exp) THEN TRUE ELSE Bad("independent reader reads the printed text as a different datum"))
               /\ nUnspec' = nUnspec
          ELSE IF r.t = "unspec" THEN nUnspec' = nUnspec + 1
+         \* a token the reference cannot place (sign-initial non-numbers such as -i): not an oracle, unless the
+         \* printed value is itself a number
+         ELSE IF r.t = "nonum" /\ e.exp.k # "num" THEN nUnspec' = nUnspec + 1
          ELSE /\ Bad(<<"independent reader cannot read the printed text", r.t>>)
               /\ nUnspec' = nUnspec
     [] e.ev = "parsed" ->
@@ -65,9 +88,11 @@ Step ==
          \* a concatenation of printed values with trivia: the reference reads exactly exp, then the end
          LET r == ReadAll(e.text, e.ro) IN
          IF r.t = "ok" THEN
-              /\ (IF r.vs = e.exp THEN TRUE ELSE Bad("independent reader reads a different sequence of data"))
+              /\ (IF Len(r.vs) = Len(e.exp) /\ \A i \in DOMAIN r.vs : SameDatum(r.vs[i], e.exp[i]) THEN TRUE
+                  ELSE Bad("independent reader reads a different sequence of data"))
               /\ nUnspec' = nUnspec
-         ELSE IF r.t = "unspec" THEN nUnspec' = nUnspec + 1
+         \* nonum: a sign-initial token the reference cannot place (-i, +inf.0 ...): not an oracle for a whole stream
+         ELSE IF r.t \in {"unspec", "nonum"} THEN nUnspec' = nUnspec + 1
          ELSE Bad(<<"independent reader cannot read the stream", r.t>>) /\ nUnspec' = nUnspec
     [] e.ev = "parsedall" ->
          \* the implementation's reading of a whole input as a stream of data: res = "ok" (all of vs, then
